@@ -46,6 +46,11 @@ impl JmespathError {
 
     /// Create a new JMESPath Error from a Context struct.
     pub fn from_ctx(ctx: &Context<'_>, reason: ErrorReason) -> JmespathError {
+        #[cfg(feature = "verif-hooks")]
+        crate::verif::error_from_ctx(
+            ctx.offset,
+            matches!(reason, ErrorReason::Runtime(RuntimeError::InvalidSlice)),
+        );
         JmespathError::new(ctx.expression, ctx.offset, reason)
     }
 }
